@@ -94,6 +94,7 @@ class CacheWorld(object):
     s.finish = self.finish
     s.p_lock = self.plan.get('p_lock')
     s.file_p = dict(self.plan.get('file_p') or {})
+    s.p_unlocked = dict(self.plan.get('p_unlocked') or {})
     for pat, pp in (self.plan.get('hot') or []):
       s.heat(pat, pp)
     if self.plan.get('opcode'):
@@ -617,8 +618,17 @@ class CacheWorld(object):
       self.query(None, bulk=list(op[1]))
     elif k == 'schema':
       from . import boot
-      boot.write_file(op[1], op[2], int(self.s.now) + 1)
-      self.ctx.fault('config_file_rewrite')
+      stamp = op[3] if len(op) > 3 else 'now'
+      mtime = int(self.s.now) + 1
+      path = os.path.join(os.environ['GRAPHITE_ROOT'], 'conf', op[1])
+      if stamp == 'same' and os.path.exists(path):
+        mtime = os.path.getmtime(path)
+        self.ctx.fault('config_file_rewrite_same_mtime')
+      elif stamp == 'old':
+        mtime = 800000 + len(self.whist) % 1000
+        self.ctx.fault('config_file_replaced_by_older_file')
+      boot.write_file(op[1], op[2], mtime)
+      self.ctx.fault('config_file_rewrite' if op[2] is not None else 'config_file_removed')
     elif k == 'clockjump':
       # the wall clock steps forward (NTP step, VM pause) while the other thread may be
       # between two of its lines
